@@ -17,7 +17,7 @@ func init() {
 			"inside each package all JSON text comes from that package's encoder: tojson/tostring/@json/@text/join/previews reach (*encoder).encode, and there is no encoding/json marshalling or fmt formatting of JSON values (R-C12-single); both encode switches cover the nine supported dynamic types (R-C12-enum); object keys are emitted in native string order (R-C11-keys).",
 		NotCovered: "validity of the produced text as such (the escape table's correctness is value-level; what is decided is that both copies agree and nothing else produces JSON); the indentation arithmetic (block-doubling writer, depth x unit) and the 8 KiB flush threshold; YAML output and input (third-party encoder); tojson|fromjson as an inverse.",
 	})
-	reg(&Rule{ID: "R-C12-sib", Props: []string{"C12", "C10"}, Floor: 5,
+	reg(&Rule{ID: "R-C12-sib", Props: []string{"C12", "C10", "C13"}, Floor: 5,
 		Doc: "encode, encodeFloat64, encodeString, encodeArray, encodeObject of encoder.go and cli/encoder.go normalise to identical bodies modulo colour/indent/flush",
 		Run: ruleC12Sib})
 	reg(&Rule{ID: "R-C12-decor", Props: []string{"C12"}, Floor: 8,
